@@ -137,6 +137,19 @@ def run(ctx):
     log(f"[R] two threads reloading one IndexReader, the first parked before it publishes while a commit completes: {sreal}/{len(sruns)} realised, {n6} accepted")
     if sreal == 0:
         raise vlib.ToolError("the shared-reader schedule was never realised")
+    # T: the OnCommitWithDelay path on tantivy's RamDirectory (one callback thread per meta.json write, ReloadProto with
+    # Callbacks = TRUE): back-to-back commits, the main thread samples what the reader serves: never a step back
+    vlib.mc_check(ctx, "ReloadProto", "ReloadProto_watch.cfg", timeout=120, workers=2)
+    vlib.mc_check(ctx, "ReloadProto", "ReloadProto_watch_negF48.cfg", expect_violation="FreshAtRest", timeout=120, workers=2)
+    wp = ctx.path("watch.ndjson")
+    vlib.run_bin("reader_driver", ["watch", "--seed", ctx.seed + 7, "--runs", 40 if ctx.quick else 600, "--out", wp], timeout=1800)
+    wev = [{k: v for k, v in e.items() if k in ("ev", "commits", "samples", "fresh")} for e in vlib.read_ndjson(wp)]
+    wruns = vlib.split_runs(wev)
+    n7 = tracecheck.validate_runs(ctx, wruns, "watch", "WatchTrace", "WatchTrace.cfg", key=lambda r: json.dumps(r[-1].get("samples")), nontrivial=lambda r: True, timeout=300)
+    ctx.cov["traces_validated_against_impl"] += n7
+    nfresh = sum(1 for e in wev if e.get("ev") == "watch_samples" and e.get("fresh"))
+    ctx.cov["watch_callback_runs"] = {"runs": len(wruns), "accepted": n7, "last_commit_seen_before_timeout": nfresh}
+    log(f"[T] OnCommitWithDelay on RamDirectory (one reload thread per commit): {n7}/{len(wruns)} sample sequences accepted (never a step back); last commit seen in {nfresh}")
     if runs:
         ctx.sample({"kind": "reader events of one run", "events": [{k: v for k, v in e.items() if k != "obs"} for e in runs[0] if e["ev"] in ("reload_start", "reload", "held", "commit", "call")][:16]})
 
